@@ -3,13 +3,13 @@
 # Applies each /tmp/seed/out/<Cxx>/m*/patch.diff in the scratch worktree /tmp/seed/<Cxx> and runs the quick
 # tier of the listed checks (default: all twenty) against that worktree (cargo `paths` override, own
 # target and output directory). Never touches /repo or /verif/evidence. Result lines go to
-# /tmp/mx/matrix-<Cxx>.txt
+# /tmp/mx/matrix-<Cxx>.txt. MX_GLOB=e* selects the property-preserving variants (tools/confirm_variant.sh).
 PID="$1"; shift
 CHECKS=("$@"); if [[ ${#CHECKS[@]} == 0 ]]; then CHECKS=(C01 C02 C03 C04 C05 C06 C07 C08 C09 C10 C11 C12 C13 C14 C15 C16 C17 C18 C19 C20); fi
 W=/tmp/seed/$PID; OUT=${SEED_OUT:-/tmp/seed/out}/$PID
 mkdir -p /tmp/mx
 RES=${MX_RES:-/tmp/mx/matrix-$PID.txt}; : > "$RES"
-for d in "$OUT"/m*/; do
+for d in "$OUT"/${MX_GLOB:-m*}/; do
   k=$(basename "$d")
   git -C "$W" checkout -q -- . ; git -C "$W" apply "$d/patch.diff" || { echo "$PID/$k patch-does-not-apply" >> "$RES"; continue; }
   o=/tmp/mx/out/$PID-$k; rm -rf "$o"; mkdir -p "$o"; cp /verif/known_findings.json "$o/"
